@@ -3,7 +3,7 @@ ENTRY = dict(
     rule="histories of 2..6 connections over loopback TCP sharing one tls.NewLRUClientSessionCache against the Go server of the utls "
          "package (session tickets on; TLS 1.2-only, TLS 1.3-only, TLS 1.3 with CurvePreferences forcing a HelloRetryRequest, "
          "TLS 1.2+1.3), one virtual clock for both ends. Corpus: every predefined ClientHelloID and 12 seeded randomized ones "
-         "plus HelloCustom clients (ApplyPreset of parrot specs as is / without EMS / session_ticket / PSK, Fingerprinter copies) "
+         "plus HelloCustom clients (ApplyPreset of parrot specs as is / without EMS / session_ticket / PSK, Fingerprinter copies, typed extensions replaced by a GenericExtension of the same id and body) "
          "(classified by reflection over their spec: session_ticket / pre_shared_key / extended_master_secret / psk modes) twice "
          "against each server kind; PSK parrots with and without OmitEmptyPsk and through a PatchBuiltHello length observer; pairs "
          "differing in extended_master_secret; server-name shapes (two DNS names, a trailing dot, IPv4/IPv6 literals reaching one listener, "
